@@ -314,6 +314,18 @@ func (P *Prog) Func(rel, name string) *ssa.Function {
 	return fn
 }
 
+// funcOpt: a package-level function that may have been inlined away (nil then);
+// a renamed one is still found through its fingerprint.
+func (P *Prog) funcOpt(rel, name string) *ssa.Function {
+	if o := P.pkg(rel).Types.Scope().Lookup(name); o != nil {
+		if f, ok := o.(*types.Func); ok {
+			return P.SSA.FuncValue(f)
+		}
+		return nil
+	}
+	return P.renamedFunc(rel, "", name)
+}
+
 // Method resolves method name of type typ (pointer or value receiver).
 func (P *Prog) Method(rel, typ, name string) *ssa.Function {
 	fn := P.methodOpt(rel, typ, name)
